@@ -132,6 +132,18 @@ def session_scripts(rnd):
             else:
                 s.data(full(s, S, 8, it[:4])); s.wait(31)
             done(s, pre_wait=pre_wait, fails=fails, expect=expect)
+        # accept-any mode and an expire interval near 2^32 (last_update + expire does not fit 32 bits): nothing expires in this run,
+        # every reconnect continues with a Serial Query
+        if ver == 1:
+            for big in (2 ** 32 - 1, 2 ** 31, 2 ** 32 - 1000):
+                s = mk("huge-expire", ver, refresh=30, expire=600, retry=300, mode=1, opens=[True, False, True, False, False] + [True] * 8)
+                s._iv = (30, 300, big)
+                s.data(full(s, S, 7, it[:3])); s.wait(rnd.choice([0, 5]))
+                s.err(1)
+                s.data(delta(s, S, 8, add=it[3:4])); s.err(4)
+                s.data(delta(s, S, 9, add=it[4:5])); s.wait(31)
+                meta_ = {"kind": "session", "name": s._name, "ver": ver, "expire_eff": big}
+                out.append((["# expire_eff %d" % big] + s.lines(), meta_))
         # expiry while waiting in the no-data retry sleep (records purged after the sleep)
         s = mk("expiry-in-no-data", ver, refresh=30, expire=600, retry=700)
         s.data(full(s, S, 7, it[:3])); s.wait(31)
